@@ -6,12 +6,13 @@ unitary timing (or are padded to be so)."""
 
 from itertools import zip_longest
 
-from jaqalpaq.error import JaqalError
+from jaqalpaq.error import JaqalError, nesting_guard
 from jaqalpaq.core.algorithm.visitor import Visitor
 from jaqalpaq.core.circuit import Circuit
 from jaqalpaq.core.block import BlockStatement, LoopStatement
 
 
+@nesting_guard
 def normalize_blocks_with_unitary_timing(circuit):
     """Normalize the given circuit to contain only parallel blocks. This
     is possible by assuming that all gates run in parallel run in one unit
